@@ -20,7 +20,14 @@ var (
 	zzFatalErr = errors.New("fatal-io")
 	zzContErr  = errors.New("continuable")
 	zzFatal2   = errors.New("fatal-2")
+	// a fatal error whose chain contains a record failure ("giving up after: ..."): fatal all the same
+	zzFatalWrap error = zzWrapErr{errs.ErrTransformFailed("tf")}
 )
+
+type zzWrapErr struct{ inner error }
+
+func (w zzWrapErr) Error() string { return "giving up after: " + w.inner.Error() }
+func (w zzWrapErr) Unwrap() error { return w.inner }
 
 // zzIngester is a symbolic ingester: each Read returns an arbitrary result of one of the
 // five classes; IsContinuableError answers by class.
@@ -32,7 +39,7 @@ type zzIngester struct {
 
 func (g *zzIngester) Read() (schemahandler.RawRecord, []byte, error) {
 	g.calls++
-	class := zz.NondetInt("class", 0, 4)
+	class := zz.NondetInt("class", 0, 5)
 	g.classes = append(g.classes, class)
 	raw := &zzRaw{id: g.calls}
 	g.raws = append(g.raws, raw)
@@ -56,6 +63,8 @@ func (g *zzIngester) Read() (schemahandler.RawRecord, []byte, error) {
 			return raw, []byte{'x'}, zzContErr
 		}
 		return nil, nil, zzContErr
+	case 5:
+		return nil, nil, zzFatalWrap
 	default:
 		if zz.NondetBool("stale") {
 			return raw, []byte{'x'}, zzFatalErr
@@ -64,14 +73,16 @@ func (g *zzIngester) Read() (schemahandler.RawRecord, []byte, error) {
 	}
 }
 
+// the handler's own classification: by identity, not through errs (the code under test)
 func (g *zzIngester) IsContinuableError(err error) bool {
-	return errs.IsErrTransformFailed(err) || err == zzContErr
+	return err == error(errs.ErrTransformFailed("tf")) || err == zzContErr
 }
 
 func (g *zzIngester) FmtErr(format string, args ...interface{}) error { return errors.New(format) }
 
 func zzIsTerminal(err error) bool {
-	return err != nil && !errs.IsErrTransformFailed(err)
+	_, isTF := err.(errs.ErrTransformFailed)
+	return err != nil && !isTF
 }
 
 // C01LatchStep: arbitrary valid pre-state, one call (Read or RawRecord).
@@ -143,6 +154,13 @@ func C01LatchStep() {
 	case 4:
 		zz.Cover("read-fatal")
 		zz.Assert(err == zzFatalErr, "fatal error returned identical")
+	case 5:
+		zz.Cover("read-fatal-wrapping")
+		zz.Assert(err == zzFatalWrap, "a fatal error that wraps a record failure is returned identical")
+		zz.Assert(!errs.IsErrTransformFailed(err), "and is not a record failure itself")
+		_, err2 := tr.Read()
+		zz.Assert(err2 == zzFatalWrap && g.calls == 1, "and is terminal: returned again without touching the ingester")
+		return
 	}
 	// representation invariant re-established
 	zz.Assert(tr.lastErr == err, "lastErr is the returned error")
@@ -194,10 +212,10 @@ func C01LatchHist() {
 			refRaw = g.raws[g.calls-1]
 		} else {
 			refRaw = nil
-			terminal = !errs.IsErrTransformFailed(err)
+			terminal = zzIsTerminal(err)
 			if terminal {
 				zz.Cover("became-terminal")
-				zz.Assert(err == io.EOF || err == zzFatalErr, "terminal errors are EOF or the ingester's fatal error, unchanged")
+				zz.Assert(err == io.EOF || err == zzFatalErr || err == zzFatalWrap, "terminal errors are EOF or the ingester's fatal error, unchanged")
 			}
 		}
 	}
